@@ -214,7 +214,7 @@ def op_contains(container, item, heap):
         return heap.dict_has(ty.k, container.term, coerce(item, ty.k).term)
     if isinstance(ty, TSet):
         return heap.set_has(ty.k, container.term, coerce(item, ty.k).term)
-    if isinstance(ty, TMapSeq):
+    if isinstance(ty, (TMapSeq, TKeySet)):
         return z3.Select(container.t[0], coerce(item, ty.k).term)
     if isinstance(ty, TStr) and isinstance(item.ty, TStr):
         k = z3.Int(fresh_name('k'))
